@@ -32,7 +32,7 @@ class Prop(PoolProp):
     model_name = "fmap"
     anchors = ["windpyutils/parallel/pools.py", "windpyutils/parallel/maps.py", "windpyutils/parallel/workers.py",
                "windpyutils/buffers.py"]
-    quick_runs = 200
+    quick_runs = 600
     real_module = "harness.realfmap"
     real_scenarios = ("fmap_small", "fmap_big_results", "fmap_none_and_falsy", "fmap_falsy_results", "mulp_small", "mulp_big_results")
     real_scenarios_quick = real_scenarios  # a fraction of a second each
